@@ -33,6 +33,8 @@ CONFIGS = {
           {"fastrace": 200, "test_statically_disable": 8}),
     "X": (os.path.join(VERIF, "corpus", "trace_shapes"), ["check"], "",
           {"trace_shapes": 40}),
+    "F": (os.path.join(VERIF, "fixtures", "shapes"), ["check"], "",
+          {"fixture_shapes": 10}),
 }
 
 
@@ -115,7 +117,7 @@ def build(cfg, force=False, verbose=False, repo=None):
     cwd, cargo_args, extra_flags, floors = CONFIGS[cfg]
     if repo is not None:
         cwd = _scratch_corpus(repo) if cfg == "X" else repo
-    extra = [os.path.join(VERIF, "corpus")] if cfg == "X" else []
+    extra = [os.path.join(VERIF, "corpus")] if cfg == "X" else ([os.path.join(VERIF, "fixtures")] if cfg == "F" else [])
     th = tree_hash(extra, repo)
     out = os.path.join(CACHE, "facts", th, cfg)
     info = {"config": cfg, "tree_hash": th, "cache_hit": False, "build_s": 0.0}
@@ -133,7 +135,7 @@ def build(cfg, force=False, verbose=False, repo=None):
         # cargo replays cached successes without invoking the wrapper: forget the members
         for prof in glob.glob(os.path.join(target, "*", ".fingerprint")) + glob.glob(os.path.join(target, ".fingerprint")):
             for d in os.listdir(prof):
-                if any(d.startswith(m + "-") for m in MEMBERS + ["trace_shapes", "trace-shapes"]):
+                if any(d.startswith(m + "-") for m in MEMBERS + ["trace_shapes", "trace-shapes", "fixture_shapes", "fixture-shapes"]):
                     shutil.rmtree(os.path.join(prof, d), ignore_errors=True)
         if cfg == "X":
             _prepare_corpus(repo, cwd if repo is not None else None)
@@ -151,7 +153,7 @@ def build(cfg, force=False, verbose=False, repo=None):
         })
         env.pop("RUSTUP_TOOLCHAIN", None)
         # the corpus crate starts from a copy of /repo's lock file and adds itself to it (still offline)
-        cmd = ["cargo", "+1.80.0"] + cargo_args[:1] + ["--offline"] + ([] if cfg == "X" else ["--locked"]) + cargo_args[1:]
+        cmd = ["cargo", "+1.80.0"] + cargo_args[:1] + ["--offline"] + ([] if cfg in ("X", "F") else ["--locked"]) + cargo_args[1:]
         t0 = time.time()
         r = subprocess.run(cmd, cwd=cwd, env=env, capture_output=True, text=True)
         info["build_s"] = round(time.time() - t0, 2)
